@@ -44,7 +44,7 @@ func init() {
 		ref := runOnce(&fresh, seed)
 		obs.Ref = refObs{Has: true, Kind: "history", Disp: ref.Disp, Cl: ref.Cl, Ret: ref.Ret}
 		fixObs(&obs.Ref.Cl)
-		obs.Note = fmt.Sprintf("history of %d RPCs", len(hs.Hist))
+		obs.Note = "history:" + scnKey(hs.Hist)
 		return []any{obs}
 	})
 	register("conc", func(raw json.RawMessage, seed int64) []any {
@@ -97,10 +97,26 @@ func init() {
 			if k == 0 {
 				out[k].Pool, out[k].PoolMaxCap = events, maxCap
 			}
+			if out[k].Note == "" {
+				out[k].Note = fmt.Sprintf("concurrent[%d]:%s", k, scnKey(hs.Rpcs))
+			}
 			res = append(res, out[k])
 		}
 		return res
 	})
+}
+
+// scnKey names a list of scenarios by the fields that distinguish the kinds of the History generator.
+func scnKey(list []scenario) string {
+	key := ""
+	for _, s := range list {
+		f := ""
+		if len(s.Cl.Frames) > 0 {
+			f = s.Cl.Frames[0].Fault
+		}
+		key += fmt.Sprintf("[%s %s %s %s %s %s %s %d %v]", s.Cl.Form, s.Cl.Method, s.Cl.Comp, s.Cl.Rej, s.Cl.Cut, f, s.Hd.Exit, s.Hd.End.Code, s.Msgs)
+	}
+	return key
 }
 
 // sameCanonical: byte-equal JSON of the parts a repetition must reproduce (a pure equality, used only to
